@@ -10,10 +10,7 @@ overlap), ALL calls (options, `overwrite`, new or same object, an interruption a
 or none, an altered sample in any shank / window or none) and -- for the invariant -- ALL histories of any length from ANY
 consistent state in which the original is recoverable (every intermediate state is covered: each prefix is a history).
 `actingObj cfg call st = some ob` names the object whose `process` the call runs (the new one, or the kept one).
-
-Two classes are excluded by hypothesis, each with a `…_counterexample` theorem (findings on the unchanged code):
-`Excluded` (process(overwrite=True) again on the object that already deleted the original) and `srSorted` (NP2.1 object
-whose reader was re-opened, sorted, by its own `compress_NP21`).
+`StOk st`: the live object, if any, is consistent with the disk (an invariant of `run`, true of every start state).
 -/
 import IblVerif.Lemmas.Converter
 
@@ -23,19 +20,18 @@ open IblVerif.Converter
 /-- **Safety invariant.**  Across every sequence of conversion runs -- on new objects and on the same object, in any
 mix -- the original samples stay recoverable byte for byte: from the original's own data file (`.bin`, or `.cbin` + `.ch`),
 or -- once an NP2.4 run has removed it -- from the ap files and metadata of all shank folders, each bit-identical
-(`good cfg.c`) to its columns.  (`Allowed`: no step is `process(overwrite=True)` on the very object that has already
-deleted the original -- see `same_object_rerun_after_delete_counterexample`.) -/
-theorem original_recoverable (cfg : Cfg) (hn : 0 < cfg.n) (st0 : St) (hs : StOk cfg st0)
-    (h0 : Recoverable cfg st0.disk) (calls : List Call) (ha : Allowed cfg st0 calls) :
+(`good cfg.c`) to its columns. -/
+theorem original_recoverable (cfg : Cfg) (hn : 0 < cfg.n) (st0 : St) (hs : StOk st0)
+    (h0 : Recoverable cfg st0.disk) (calls : List Call) :
     Recoverable cfg (runs cfg st0 calls).disk :=
-  runs_recoverable cfg hn calls st0 hs h0 ha
+  runs_recoverable cfg hn calls st0 hs h0
 
 /-- **The original is removed only after the split output has been verified bit-identical.**  If one call (new or same
 object) makes the original's data file unreadable/absent, then it was an NP2.4 run on the original by an object with
 `post_check` and `delete_original`, the split of THIS run was faithful for every shank (so this run's `check_NP24`
 compared equal in every window), the run returned 1, and every shank folder holds a complete ap and lf stream (compressed
 or not, as requested) with metadata.  A `check_completed` left over from an earlier call of the same object never suffices. -/
-theorem delete_requires_check (cfg : Cfg) (call : Call) (st : St) (hs : StOk cfg st)
+theorem delete_requires_check (cfg : Cfg) (call : Call) (st : St) (hs : StOk st)
     (h0 : OrigHolds st.disk) (h1 : ¬ OrigHolds (run cfg call st).1.disk) :
     ∃ ob, actingObj cfg call st = some ob ∧ cfg.kind = .np24 ∧ ob.onShank = false ∧
       ob.opts.postCheck = true ∧ ob.opts.deleteOriginal = true ∧
@@ -48,19 +44,20 @@ theorem delete_requires_check (cfg : Cfg) (call : Call) (st : St) (hs : StOk cfg
     rw [run_acting cfg call st ob ha] at h1 ⊢
     cases ho : ob.onShank
     case true => rw [processObj_onShank cfg ob call _ ho] at h1; exact absurd h0 h1
+    have he := apFileExists_of_holds _ ob hok ho h0
     cases hk : cfg.kind
-    · rw [processObj_np24 cfg ob call _ ho hk] at h1 ⊢
-      rcases process24_orig cfg ob call st.disk hok.1 with ⟨a, b, _⟩ | ⟨a, b, c, _, d, _, _, e⟩
+    · rw [processObj_np24 cfg ob call _ ho hk he] at h1 ⊢
+      rcases process24_orig cfg ob call st.disk hok.1 with ⟨a, b⟩ | ⟨a, b, c, d, _, e⟩
       · exact absurd (origHolds_of_eq h0 a b) h1
       · exact ⟨ob, rfl, rfl, ho, a, b, (splitDiffers_false_iff cfg call).mp c, d, by simp only [Complete, hk]; exact e⟩
-    · rw [processObj_np21 cfg ob call _ ho hk] at h1
+    · rw [processObj_np21 cfg ob call _ ho hk he] at h1
       exact absurd (process21_keeps cfg ob call _ h0) h1
-    · rw [processObj_np1 cfg ob call _ ho hk] at h1; exact absurd h0 h1
+    · rw [processObj_np1 cfg ob call _ ho hk he] at h1; exact absurd h0 h1
 
 /-- **Single-shank probes: the `.bin` is removed only after it has been losslessly compressed in place.**  An NP2.1
 run changes the original's data file in one way only: `.bin` → published `.cbin` together with its `.ch` (mtscomp
 checks the round trip before `compress_file` renames the temporary file), and only with `compress` set. -/
-theorem np21_compressed_in_place (cfg : Cfg) (hk : cfg.kind = .np21) (call : Call) (st : St) (hs : StOk cfg st)
+theorem np21_compressed_in_place (cfg : Cfg) (hk : cfg.kind = .np21) (call : Call) (st : St) (hs : StOk st)
     (h : (run cfg call st).1.disk.orig ≠ st.disk.orig) :
     st.disk.orig = .bin ∧ (run cfg call st).1.disk.orig = .cbin ∧ (run cfg call st).1.disk.och = true ∧
     ∃ ob, actingObj cfg call st = some ob ∧ ob.opts.compress = true := by
@@ -69,33 +66,34 @@ theorem np21_compressed_in_place (cfg : Cfg) (hk : cfg.kind = .np21) (call : Cal
   | some ob =>
     have hok := acting_objOk cfg call st ob hs ha
     rw [run_acting cfg call st ob ha] at h ⊢
+    cases he : apFileExists ob st.disk
+    case false => rw [processObj_missing cfg ob call _ he] at h; exact absurd rfl h
     cases ho : ob.onShank
     case true => rw [processObj_onShank cfg ob call _ ho] at h; exact absurd rfl h
-    rw [processObj_np21 cfg ob call _ ho hk] at h ⊢
-    have hcl : ob.srClosed = false := by
-      cases hc : ob.srClosed
-      · rfl
-      · have := (hok.2.2 hc).1; rw [hk] at this; cases this
-    obtain ⟨a, b, c, d⟩ := process21_orig_change cfg ob call st.disk (hok.2.1 ho hcl) h
+    rw [processObj_np21 cfg ob call _ ho hk he] at h ⊢
+    have hl := (hok.2.1 ho ((apFileExists_iff _ ob hok ho).mp he)).1
+    obtain ⟨a, b, c, d⟩ := process21_orig_change cfg ob call st.disk hl h
     exact ⟨a, b, c, ob, rfl, d⟩
 
-/-- **An interrupted run keeps the original.**  Whatever exception ends a call (the environment's, at any point, the
-failed verification, or the crash / FileNotFoundError of the excluded class), the original's data file is still
-readable afterwards (for NP2.1 possibly as the `.cbin` that replaced the `.bin` after a complete, checked compression). -/
+/-- **An interrupted run keeps the original.**  Whatever exception ends a call (the environment's, at any point, or the
+failed verification), the original's data file is still readable afterwards (for NP2.1 possibly as the `.cbin` that
+replaced the `.bin` after a complete, checked compression). -/
 theorem interrupted_run_keeps_original (cfg : Cfg) (call : Call) (st : St) (h0 : OrigHolds st.disk) (e : Err)
     (h1 : (run cfg call st).2 = .raised e) : OrigHolds (run cfg call st).1.disk := by
   cases ha : actingObj cfg call st with
   | none => rw [(run_noacting cfg call st ha).1]; exact h0
   | some ob =>
     rw [run_acting cfg call st ob ha] at h1 ⊢
+    cases he : apFileExists ob st.disk
+    case false => rw [processObj_missing cfg ob call _ he]; exact h0
     cases ho : ob.onShank
     case true => rw [processObj_onShank cfg ob call _ ho]; exact h0
     cases hk : cfg.kind
-    · rw [processObj_np24 cfg ob call _ ho hk] at h1 ⊢
+    · rw [processObj_np24 cfg ob call _ ho hk he] at h1 ⊢
       obtain ⟨a, b⟩ := process24_raised cfg ob call st.disk e h1
       exact origHolds_of_eq h0 a b
-    · rw [processObj_np21 cfg ob call _ ho hk]; exact process21_keeps cfg ob call _ h0
-    · rw [processObj_np1 cfg ob call _ ho hk]; exact h0
+    · rw [processObj_np21 cfg ob call _ ho hk he]; exact process21_keeps cfg ob call _ h0
+    · rw [processObj_np1 cfg ob call _ ho hk he]; exact h0
 
 /-- **A run without overwrite on existing output changes nothing on disk and reports that it did nothing** -- on a new
 object or on the same one, for every option triple and whatever interruption or alteration the environment has prepared. -/
@@ -103,58 +101,72 @@ theorem rerun_noop (cfg : Cfg) (call : Call) (st : St) (ob : Obj) (ha : actingOb
     (ho : ob.onShank = false) (he : OutputExists cfg st.disk) (hw : call.overwrite = false) :
     (run cfg call st).1.disk = st.disk ∧ (run cfg call st).2 = .ret 0 := by
   rw [run_acting cfg call st ob ha]
+  cases hf : apFileExists ob st.disk
+  case false => rw [processObj_missing cfg ob call _ hf]; exact ⟨rfl, rfl⟩
   cases hk : cfg.kind
-  · rw [processObj_np24 cfg ob call _ ho hk]
+  · rw [processObj_np24 cfg ob call _ ho hk hf]
     simp only [OutputExists, hk] at he
     exact process24_rerun_noop cfg ob call st.disk he.1 he.2 hw
-  · rw [processObj_np21 cfg ob call _ ho hk]
+  · rw [processObj_np21 cfg ob call _ ho hk hf]
     simp only [OutputExists, hk] at he
     exact process21_rerun_noop cfg ob call st.disk he hw
   · simp [OutputExists, hk] at he
 
+/-- **Once an object has deleted the original, calling it again does nothing** -- with or without `overwrite`, whatever
+the environment has prepared: status 0, the disk (the valid shank files) untouched.  More generally: `process` of an
+object built on the original when no original data file is left. -/
+theorem rerun_after_delete_noop (cfg : Cfg) (call : Call) (st : St) (hs : StOk st) (ob : Obj)
+    (ha : actingObj cfg call st = some ob) (ho : ob.onShank = false) (hgone : st.disk.orig = .absent) :
+    (run cfg call st).1.disk = st.disk ∧ (run cfg call st).2 = .ret 0 := by
+  have hok := acting_objOk cfg call st ob hs ha
+  rw [run_acting cfg call st ob ha]
+  have hf : apFileExists ob st.disk = false := by
+    cases h : apFileExists ob st.disk
+    · rfl
+    · exact absurd hgone ((apFileExists_iff _ ob hok ho).mp h)
+  rw [processObj_missing cfg ob call _ hf]; exact ⟨rfl, rfl⟩
+
 /-- Every run on the original of an NP2 probe -- completed or interrupted anywhere, new or same object -- leaves output
 behind (all expected shank folders; the lf file), so that the next run without overwrite is a repeated run. -/
-theorem run_creates_output (cfg : Cfg) (hn : 0 < cfg.n) (call : Call) (st : St) (ob : Obj)
-    (ha : actingObj cfg call st = some ob) (h : OnOriginalNP2 cfg ob) : OutputExists cfg (run cfg call st).1.disk := by
+theorem run_creates_output (cfg : Cfg) (hn : 0 < cfg.n) (call : Call) (st : St) (hs : StOk st) (h0 : OrigHolds st.disk)
+    (ob : Obj) (ha : actingObj cfg call st = some ob) (h : OnOriginalNP2 cfg ob) :
+    OutputExists cfg (run cfg call st).1.disk := by
+  have hok := acting_objOk cfg call st ob hs ha
   rw [run_acting cfg call st ob ha]
   obtain ⟨ho, hk | hk⟩ := h
-  · rw [processObj_np24 cfg ob call _ ho hk]; simp only [OutputExists, hk]
+  · rw [processObj_np24 cfg ob call _ ho hk (apFileExists_of_holds _ ob hok ho h0)]; simp only [OutputExists, hk]
     exact ⟨hn, fun i hi => process24_creates_output cfg ob call st.disk i hi⟩
-  · rw [processObj_np21 cfg ob call _ ho hk]; simp only [OutputExists, hk]
+  · rw [processObj_np21 cfg ob call _ ho hk (apFileExists_of_holds _ ob hok ho h0)]; simp only [OutputExists, hk]
     exact process21_creates_output cfg ob call st.disk
 
 /-- **A repeated run without overwrite changes nothing on disk and returns 0**, whatever the first run was (any options,
 completed, interrupted at any step, unfaithful split), whether it is repeated on the same object or on a new one. -/
-theorem repeated_run_noop (cfg : Cfg) (hn : 0 < cfg.n) (first again : Call) (st : St) (ob1 ob2 : Obj)
+theorem repeated_run_noop (cfg : Cfg) (hn : 0 < cfg.n) (first again : Call) (st : St) (hs : StOk st)
+    (h0 : OrigHolds st.disk) (ob1 ob2 : Obj)
     (h1 : actingObj cfg first st = some ob1) (hn1 : OnOriginalNP2 cfg ob1)
     (h2 : actingObj cfg again (run cfg first st).1 = some ob2) (ho2 : ob2.onShank = false)
     (hw : again.overwrite = false) :
     (run cfg again (run cfg first st).1).1.disk = (run cfg first st).1.disk ∧
     (run cfg again (run cfg first st).1).2 = .ret 0 :=
-  rerun_noop cfg again _ ob2 h2 ho2 (run_creates_output cfg hn first st ob1 h1 hn1) hw
+  rerun_noop cfg again _ ob2 h2 ho2 (run_creates_output cfg hn first st hs h0 ob1 h1 hn1) hw
 
 /-- **A forced re-run ends with a complete, valid set of per-shank files whether or not earlier output exists**: from
 ANY consistent state with a readable original (no output, complete output, partial files of an interrupted run, stale
-`.cbin`/`.cbin_tmp`, altered files …), `process(overwrite=True)` left alone by the environment -- on a new object or on the
-same one (for NP2.1: one whose reader was not re-opened sorted, see `np21_same_object_sorted_counterexample`) -- returns 1
-and every stream of every shank is complete (compressed or not, as requested); the original is still readable unless
-this very run verified and deleted it. -/
-theorem forced_rerun_completes (cfg : Cfg) (call : Call) (st : St) (ob : Obj) (hs : StOk cfg st)
+`.cbin`/`.cbin_tmp`, altered files …), `process(overwrite=True)` left alone by the environment -- on a new object or on
+the same one -- returns 1 and every stream of every shank is complete (compressed or not, as requested); the original is
+still readable unless this very run verified and deleted it. -/
+theorem forced_rerun_completes (cfg : Cfg) (call : Call) (st : St) (ob : Obj) (hs : StOk st)
     (h0 : OrigHolds st.disk) (ha : actingObj cfg call st = some ob) (h : OnOriginalNP2 cfg ob)
-    (hsort : ob.srSorted = false) (hw : call.overwrite = true) (hf : NoFault cfg call) :
+    (hw : call.overwrite = true) (hf : NoFault cfg call) :
     (run cfg call st).2 = .ret 1 ∧ Complete cfg ob.opts.compress (run cfg call st).1.disk ∧
     (OrigHolds (run cfg call st).1.disk ∨
       (cfg.kind = .np24 ∧ ob.opts.postCheck = true ∧ ob.opts.deleteOriginal = true)) := by
   have hok := acting_objOk cfg call st ob hs ha
   rw [run_acting cfg call st ob ha]
   obtain ⟨ho, hk | hk⟩ := h
-  have hcl : ob.srClosed = false := by
-    cases hc : ob.srClosed
-    · rfl
-    · have := (hok.2.2 hc).2.2; simp [OrigHolds, origReadable, this] at h0
-  · rw [processObj_np24 cfg ob call _ ho hk]
+  · rw [processObj_np24 cfg ob call _ ho hk (apFileExists_of_holds _ ob hok ho h0)]
     have hae : alreadyExists24 cfg.n call.overwrite st.disk = false := (alreadyExists24_false_iff _ _ _).mpr (Or.inl hw)
-    obtain ⟨a, b, c⟩ := process24_completes cfg ob call st.disk hcl hae hf
+    obtain ⟨a, b, c⟩ := process24_completes cfg ob call st.disk hae hf
     refine ⟨a, by simp only [Complete, hk]; exact b, ?_⟩
     rcases c with ⟨c1, c2⟩ | ⟨c1, c2⟩
     · exact Or.inl (origHolds_of_eq h0 c1 c2)
@@ -162,12 +174,9 @@ theorem forced_rerun_completes (cfg : Cfg) (call : Call) (st : St) (ob : Obj) (h
       cases hcc : ob.checkCompleted
       · simpa [hcc] using c1
       · exact hok.1 hcc
-  · have hcl : ob.srClosed = false := by
-      cases hc : ob.srClosed
-      · rfl
-      · have := (hok.2.2 hc).1; rw [hk] at this; cases this
-    rw [processObj_np21 cfg ob call _ ho hk]
-    obtain ⟨a, b, c⟩ := process21_completes cfg ob call st.disk h0 (hok.2.1 ho hcl) hsort (Or.inr hw) hf.1
+  · rw [processObj_np21 cfg ob call _ ho hk (apFileExists_of_holds _ ob hok ho h0)]
+    have hl := (hok.2.1 ho (origReadable_ne_absent h0)).1
+    obtain ⟨a, b, c⟩ := process21_completes cfg ob call st.disk h0 hl (Or.inr hw) hf.1
     exact ⟨a, by simp only [Complete, hk]; exact ⟨b, c⟩, Or.inl (process21_keeps cfg ob call _ h0)⟩
 
 /-- **First run**: without earlier output, `process()` of a new object left alone by the environment completes in the
@@ -177,48 +186,53 @@ theorem first_run_completes (cfg : Cfg) (call : Call) (st : St) (ob : Obj) (hr :
     (run cfg call st).2 = .ret 1 ∧ Complete cfg ob.opts.compress (run cfg call st).1.disk ∧
     (OrigHolds (run cfg call st).1.disk ∨
       (cfg.kind = .np24 ∧ ob.opts.postCheck = true ∧ ob.opts.deleteOriginal = true)) := by
-  obtain ⟨_, _, hcc, hcl, hsort, hlink, _⟩ := construct_ok cfg call st.disk ob (acting_fresh cfg call st ob hr ha)
+  obtain ⟨_, _, hcc, hlink, _⟩ := construct_ok cfg call st.disk ob (acting_fresh cfg call st ob hr ha)
   rw [run_acting cfg call st ob ha]
   obtain ⟨ho, hk | hk⟩ := h
-  have h0 : OrigHolds st.disk := (hlink ho).1
-  · rw [processObj_np24 cfg ob call _ ho hk]
+  · have h0 : OrigHolds st.disk := (hlink ho).1
+    have he : apFileExists ob st.disk = true := by simp [apFileExists, (hlink ho).2]
+    rw [processObj_np24 cfg ob call _ ho hk he]
     simp only [NoOutput, hk] at hno
     have hae : alreadyExists24 cfg.n call.overwrite st.disk = false := (alreadyExists24_false_iff _ _ _).mpr (Or.inr hno)
-    obtain ⟨a, b, c⟩ := process24_completes cfg ob call st.disk hcl hae hf
+    obtain ⟨a, b, c⟩ := process24_completes cfg ob call st.disk hae hf
     refine ⟨a, by simp only [Complete, hk]; exact b, ?_⟩
     rcases c with ⟨c1, c2⟩ | ⟨c1, c2⟩
     · exact Or.inl (origHolds_of_eq h0 c1 c2)
     · exact Or.inr ⟨hk, by simpa [hcc] using c1, c2⟩
   · have h0 : OrigHolds st.disk := (hlink ho).1
-    rw [processObj_np21 cfg ob call _ ho hk]
+    have he : apFileExists ob st.disk = true := by simp [apFileExists, (hlink ho).2]
+    rw [processObj_np21 cfg ob call _ ho hk he]
     simp only [NoOutput, hk] at hno
     have hl : lfExists st.disk = false := by simp [lfExists, hno.1, hno.2]
-    obtain ⟨a, b, c⟩ := process21_completes cfg ob call st.disk h0 (hlink ho).2 hsort (Or.inl hl) hf.1
+    obtain ⟨a, b, c⟩ := process21_completes cfg ob call st.disk h0 (hlink ho).2 (Or.inl hl) hf.1
     exact ⟨a, by simp only [Complete, hk]; exact ⟨b, c⟩, Or.inl (process21_keeps cfg ob call _ h0)⟩
 
 /-- **Run interrupted at any processing step and then retried with overwrite** -- on the same object or on a new one:
 the retry completes. -/
-theorem interrupted_then_forced_completes (cfg : Cfg) (first retry : Call) (st : St) (hs : StOk cfg st)
+theorem interrupted_then_forced_completes (cfg : Cfg) (first retry : Call) (st : St) (hs : StOk st)
     (h0 : OrigHolds st.disk) (e : Err) (h1 : (run cfg first st).2 = .raised e) (ob : Obj)
-    (ha : actingObj cfg retry (run cfg first st).1 = some ob) (h : OnOriginalNP2 cfg ob) (hsort : ob.srSorted = false)
+    (ha : actingObj cfg retry (run cfg first st).1 = some ob) (h : OnOriginalNP2 cfg ob)
     (hw : retry.overwrite = true) (hf : NoFault cfg retry) :
     (run cfg retry (run cfg first st).1).2 = .ret 1 ∧
     Complete cfg ob.opts.compress (run cfg retry (run cfg first st).1).1.disk :=
   let h2 := interrupted_run_keeps_original cfg first st h0 e h1
-  let r := forced_rerun_completes cfg retry _ ob (run_stOk cfg first st hs) h2 ha h hsort hw hf
+  let r := forced_rerun_completes cfg retry _ ob (run_stOk cfg first st hs) h2 ha h hw hf
   ⟨r.1, r.2.1⟩
 
 /-- **Input that is not an NP2 probe, or is an already split shank**: status -1 resp. 0, nothing on disk changes --
 for every option triple, with or without overwrite, on a new object or again on the same one. -/
-theorem not_np2_or_split_untouched (cfg : Cfg) (call : Call) (st : St) (ob : Obj) (ha : actingObj cfg call st = some ob) :
-    (cfg.kind = .np1 → ob.onShank = false → (run cfg call st).1.disk = st.disk ∧ (run cfg call st).2 = .ret (-1)) ∧
+theorem not_np2_or_split_untouched (cfg : Cfg) (call : Call) (st : St) (hs : StOk st) (ob : Obj)
+    (ha : actingObj cfg call st = some ob) :
+    (cfg.kind = .np1 → ob.onShank = false → OrigHolds st.disk →
+      (run cfg call st).1.disk = st.disk ∧ (run cfg call st).2 = .ret (-1)) ∧
     (ob.onShank = true → (run cfg call st).1.disk = st.disk ∧ (run cfg call st).2 = .ret 0) := by
+  have hok := acting_objOk cfg call st ob hs ha
   rw [run_acting cfg call st ob ha]
-  refine ⟨fun hk ho => ?_, fun ho => ?_⟩
-  · rw [processObj_np1 cfg ob call _ ho hk]; exact ⟨rfl, rfl⟩
+  refine ⟨fun hk ho h0 => ?_, fun ho => ?_⟩
+  · rw [processObj_np1 cfg ob call _ ho hk (apFileExists_of_holds _ ob hok ho h0)]; exact ⟨rfl, rfl⟩
   · rw [processObj_onShank cfg ob call _ ho]; exact ⟨rfl, rfl⟩
 
-/-! ### Non-vacuity, and the counterexamples of the excluded classes -/
+/-! ### Non-vacuity, and the counterexample of the known finding -/
 
 /-- a two-shank NP2.4 recording of 2000 samples, windows of 1200 with overlap 576: 3 processing windows -/
 def cfg24 : Cfg := { kind := .np24, n := 2, ns := 2000, w := 1200, ov := 576, c := 7 }
@@ -232,7 +246,7 @@ def start24 : St := St.start (fresh .bin)
 example : nproc cfg24 = 3 ∧ nverif cfg24 = 2 := by
   simp [nproc, nverif, cfg24, Window.firstlast, Window.firstlastAux]
 
-example : StOk cfg24 start24 ∧ OrigHolds start24.disk ∧ Recoverable cfg24 start24.disk ∧ NoOutput cfg24 start24.disk ∧
+example : StOk start24 ∧ OrigHolds start24.disk ∧ Recoverable cfg24 start24.disk ∧ NoOutput cfg24 start24.disk ∧
     NoFault cfg24 (dflt false) := by
   refine ⟨by simp [StOk, start24, St.start], rfl, Or.inl rfl, ?_, ⟨rfl, ?_⟩⟩
   · intro i _; rfl
@@ -245,99 +259,35 @@ such a disk (`run_creates_output`: every run creates all folders before its firs
 theorem rerun_partial_folders_counterexample :
     (run cfg24 (dflt false) (St.start (freshWith .bin 1))).2 = .ret 0 ∧ (freshWith .bin 1).shanks 1 = none ∧
     (run cfg24 (dflt false) (St.start (freshWith .bin 1))).1.disk.shanks 1 = some ⟨openWb FileSet.empty, openWb FileSet.empty⟩ := by
-  simp [run, construct, processObj, St.start, cfg24, dflt, process24, fresh, freshWith, origReadable, alreadyExists24,
+  simp [run, construct, processObj, St.start, cfg24, dflt, process24, fresh, freshWith, origReadable, apFileExists, alreadyExists24,
     prepare24, onShanks, prepShank, List.range, List.range.loop]
 
-/-- the converter object built by `deleting` on the fresh disk -/
-def ob0 : Obj := ⟨⟨true, false, true⟩, false, .bin, false, false, false, false⟩
-
-/-- after the complete uncompressed run: each shank folder holds whole, bit-identical ap and lf files and both metas -/
-theorem s4_shank0 : (S4 cfg24 ob0 deleting (fresh .bin) 4).shanks 0 =
-    some ⟨⟨.whole (.good 7), none, false, false, true⟩, ⟨.whole (.good 7), none, false, false, true⟩⟩ := by
-  simp [S4, S3, S2, S1, ob0, cfg24, deleting, dflt, metas24, windows24, prepare24, onShanks, prepShank, fresh, written,
-    nproc, Window.firstlast, Window.firstlastAux, apData, altered, openWb, FileSet.empty]
-
-/-- **Finding `same-object-rerun-after-delete`** (the class `Excluded` of `original_recoverable`).  The object verifies, deletes the
-original (`.bin`) and returns 1; `process(overwrite=True)` on the SAME object then truncates every shank file
-(`_prepare_files_NP24` opens them with "wb") and dies reading the closed memmap of the deleted file: the recording is
-no longer recoverable from anything on the disk. -/
-theorem same_object_rerun_after_delete_counterexample :
-    (run cfg24 deleting start24).2 = .ret 1 ∧ Recoverable cfg24 (run cfg24 deleting start24).1.disk ∧
-    Excluded { deleting with reuse := true, overwrite := true } (run cfg24 deleting start24).1 ∧
-    (run cfg24 { deleting with reuse := true, overwrite := true } (run cfg24 deleting start24).1).2 = .raised .crash ∧
-    ¬ Recoverable cfg24 (run cfg24 { deleting with reuse := true, overwrite := true } (run cfg24 deleting start24).1).1.disk := by
-  have e1 : (run cfg24 deleting start24) =
-      (⟨{ S4 cfg24 ob0 deleting (fresh .bin) 4 with orig := .absent },
-        some { ob0 with srClosed := true, checkCompleted := true }⟩, .ret 1) := by
-    simp [run, construct, processObj, St.start, start24, cfg24, deleting, dflt, process24, fresh, origReadable, ob0,
-      alreadyExists24, stopAt, splitDiffers, altered, verifyReads, readCrashes, S4, S3, S2, S1, List.range, List.range.loop]
-  have e2 : (run cfg24 { deleting with reuse := true, overwrite := true }
-      (⟨{ S4 cfg24 ob0 deleting (fresh .bin) 4 with orig := .absent }, some { ob0 with srClosed := true, checkCompleted := true }⟩ : St)) =
-      (⟨prepare24 2 true { S4 cfg24 ob0 deleting (fresh .bin) 4 with orig := .absent },
-        some { ob0 with srClosed := true, checkCompleted := true }⟩, .raised .crash) := by
-    simp [run, processObj, process24, cfg24, deleting, dflt, alreadyExists24, readCrashes, ob0]
-  rw [e1]
-  simp only [e2]
-  refine ⟨trivial, ?_, ?_, trivial, ?_⟩
-  · right
-    refine ⟨rfl, by decide, fun i hi => ?_⟩
-    obtain ⟨sh, a, b, _⟩ := S4_shank_complete_good cfg24 ob0 deleting (fresh .bin)
-      (by simp [splitDiffers, altered, deleting, dflt]) i hi
-    exact ⟨sh, a, b.holds.1, b.holds.2⟩
-  · exact ⟨rfl, rfl, by simp [OrigHolds, origReadable]⟩
-  · intro h
-    rcases h with h | ⟨_, _, h⟩
-    · simp [OrigHolds, origReadable, prepare24] at h
-    · obtain ⟨sh, a, b, _⟩ := h 0 (by decide)
-      simp [prepare24, onShanks, s4_shank0, prepShank] at a
-      subst a
-      simp [FilesHold, openWb] at b
-
-/-- **Finding `np21-same-object-sorted-reader`** (the hypothesis `srSorted = false` of `forced_rerun_completes`).  After its own
-`compress_NP21` the object reads through `spikeglx.Reader(self.ap_file)` re-opened with the default `sort=True`; a forced
-re-run on the SAME object returns 1, yet the lf file it writes is derived from the channels in sorted order while its
-metadata describes the acquisition order: the set is not valid. -/
-theorem np21_same_object_sorted_counterexample :
-    (run cfg21 (dflt false) (St.start (fresh .bin))).2 = .ret 1 ∧
-    (run cfg21 { dflt true with reuse := true } (run cfg21 (dflt false) (St.start (fresh .bin))).1).2 = .ret 1 ∧
-    (run cfg21 { dflt true with reuse := true } (run cfg21 (dflt false) (St.start (fresh .bin))).1).1.disk.lf.cbin = some .bad ∧
-    ¬ Complete cfg21 true (run cfg21 { dflt true with reuse := true } (run cfg21 (dflt false) (St.start (fresh .bin))).1).1.disk := by
-  have e1 : (run cfg21 (dflt false) (St.start (fresh .bin))).1.obj =
-      some ⟨⟨true, true, false⟩, false, .cbin, true, false, false, false⟩ ∧
-      (run cfg21 (dflt false) (St.start (fresh .bin))).2 = .ret 1 := by
-    simp [run, construct, processObj, St.start, cfg21, cfg24, dflt, process21, fresh, origReadable, lfExists, stopAt,
-      FileSet.empty]
-  have e2 : ∀ d : Disk, (run cfg21 { dflt true with reuse := true }
-      ⟨d, some ⟨⟨true, true, false⟩, false, .cbin, true, false, false, false⟩⟩).2 = .ret 1 ∧
-      (run cfg21 { dflt true with reuse := true }
-      ⟨d, some ⟨⟨true, true, false⟩, false, .cbin, true, false, false, false⟩⟩).1.disk.lf.cbin = some .bad := by
-    intro d
-    simp [run, processObj, cfg21, cfg24, dflt, process21, stopAt, compressFileSet, lfData]
-  have h := e2 (run cfg21 (dflt false) (St.start (fresh .bin))).1.disk
-  have hst : (run cfg21 (dflt false) (St.start (fresh .bin))).1 =
-      ⟨(run cfg21 (dflt false) (St.start (fresh .bin))).1.disk, some ⟨⟨true, true, false⟩, false, .cbin, true, false, false, false⟩⟩ := by
-    rw [← e1.1]
-  rw [← hst] at h
-  refine ⟨e1.2, h.1, h.2, ?_⟩
-  intro hc
-  have := hc.1.2.2.1
-  rw [h.2] at this
-  cases this
-
-/-- the deleting branch is reachable: the verified run of `same_object_rerun_after_delete_counterexample` removes the original -/
-example : (run cfg24 deleting start24).2 = .ret 1 ∧ ¬ OrigHolds (run cfg24 deleting start24).1.disk := by
-  exact ⟨same_object_rerun_after_delete_counterexample.1, same_object_rerun_after_delete_counterexample.2.2.1.2.2⟩
+/-- the deleting branch is reachable, and afterwards the same object does nothing even with overwrite: the verified run
+removes the original and returns 1; `process(overwrite=True)` on the same object returns 0 and leaves the disk alone -/
+example : (run cfg24 deleting start24).2 = .ret 1 ∧ (run cfg24 deleting start24).1.disk.orig = .absent ∧
+    (run cfg24 { deleting with reuse := true, overwrite := true } (run cfg24 deleting start24).1).2 = .ret 0 ∧
+    (run cfg24 { deleting with reuse := true, overwrite := true } (run cfg24 deleting start24).1).1.disk =
+      (run cfg24 deleting start24).1.disk := by
+  have e1 : (run cfg24 deleting start24).2 = .ret 1 ∧ (run cfg24 deleting start24).1.disk.orig = .absent ∧
+      ∃ ob, (run cfg24 deleting start24).1.obj = some ob ∧ ob.onShank = false := by
+    simp [run, construct, processObj, St.start, start24, cfg24, deleting, dflt, process24, fresh, origReadable,
+      apFileExists, alreadyExists24, stopAt, splitDiffers, altered, verifyReads, List.range, List.range.loop]
+  obtain ⟨a, b, ob, c, d⟩ := e1
+  have hs : StOk (run cfg24 deleting start24).1 := run_stOk _ _ _ (by simp [StOk, start24, St.start])
+  have r := rerun_after_delete_noop cfg24 { deleting with reuse := true, overwrite := true } _ hs ob
+    (by simp [actingObj, c]) d b
+  exact ⟨a, b, r.2, r.1⟩
 
 /-- an interruption that fires: the 4th `_split2shanks` call of a first run raises, partial files remain -/
 example : (run cfg24 { dflt false with interrupt := some (.split 3) } start24).2 = .raised .injected := by
-  simp [run, construct, processObj, start24, St.start, cfg24, dflt, process24, fresh, origReadable, alreadyExists24,
-    readCrashes, stopAt, Point.splitIdx, nproc, Window.firstlast, Window.firstlastAux]
+  simp [run, construct, processObj, start24, St.start, cfg24, dflt, process24, fresh, origReadable, apFileExists, alreadyExists24,
+    stopAt, Point.splitIdx, nproc, Window.firstlast, Window.firstlastAux]
 
 /-- the unfaithful split is caught by the verification in whichever window the altered sample lies: here shank 1, a
 row of the FIRST processing and FIRST verification window (the run spans 3 processing and 2 verification windows) -/
 example : (run cfg24 { dflt false with corrupt := some ⟨1, 0, 0⟩ } start24).2 = .raised .assertion := by
-  simp [run, construct, processObj, start24, St.start, cfg24, dflt, process24, fresh, origReadable, alreadyExists24,
-    readCrashes, stopAt, splitDiffers, altered, verifyReads, nproc, Window.firstlast, Window.firstlastAux, List.range,
+  simp [run, construct, processObj, start24, St.start, cfg24, dflt, process24, fresh, origReadable, apFileExists, alreadyExists24,
+    stopAt, splitDiffers, altered, verifyReads, nproc, Window.firstlast, Window.firstlastAux, List.range,
     List.range.loop]
 
 /-- … and the `assert` of that first window comes before the reads of the second one: an exception injected at read 3
@@ -345,8 +295,8 @@ example : (run cfg24 { dflt false with corrupt := some ⟨1, 0, 0⟩ } start24).
 example : (run cfg24 { dflt false with corrupt := some ⟨1, 0, 0⟩, interrupt := some (.verify 3) } start24).2 = .raised .assertion ∧
     (run cfg24 { dflt false with corrupt := some ⟨1, 0, 0⟩, interrupt := some (.verify 2) } start24).2 = .raised .injected := by
   constructor <;>
-  simp [run, construct, processObj, start24, St.start, cfg24, dflt, process24, fresh, origReadable, alreadyExists24,
-    readCrashes, stopAt, splitDiffers, altered, verifyReads, nproc, nverif, Window.firstlast, Window.firstlastAux,
+  simp [run, construct, processObj, start24, St.start, cfg24, dflt, process24, fresh, origReadable, apFileExists, alreadyExists24,
+    stopAt, splitDiffers, altered, verifyReads, nproc, nverif, Window.firstlast, Window.firstlastAux,
     List.range, List.range.loop, Point.splitIdx, Point.metaIdx, Point.verifyIdx, Point.compressIdx]
 
 /-- the same object called three times: process() → 1, process() → 0, process(overwrite=True) → 1 -/
@@ -354,8 +304,8 @@ example : (run cfg24 (dflt false) start24).2 = .ret 1 ∧
     (run cfg24 { dflt false with reuse := true } (run cfg24 (dflt false) start24).1).2 = .ret 0 ∧
     (run cfg24 { dflt true with reuse := true }
       (run cfg24 { dflt false with reuse := true } (run cfg24 (dflt false) start24).1).1).2 = .ret 1 := by
-  simp [run, construct, processObj, start24, St.start, cfg24, dflt, process24, fresh, origReadable, alreadyExists24,
-    readCrashes, stopAt, splitDiffers, altered, verifyReads, List.range, List.range.loop, prepare24, onShanks, prepShank,
+  simp [run, construct, processObj, start24, St.start, cfg24, dflt, process24, fresh, origReadable, apFileExists, alreadyExists24,
+    stopAt, splitDiffers, altered, verifyReads, List.range, List.range.loop, prepare24, onShanks, prepShank,
     windows24, metas24, compress24]
 
 end IblVerif.C04
